@@ -266,7 +266,27 @@ def check_fetch(ctx, reader, r, kind, witness):
         ctx.violation('get_recording_metadata raised %s for a saved id on %s cassette' % (type(ex).__name__, kind), w)
 
 
+def judge_concurrent(ctx, cassette, ids, kind, w):
+    from playback.exceptions import NoSuchRecording
+    for (i, k), rid in sorted(ids.items()):
+        ctx.count('concurrently_saved_recordings_fetched')
+        try:
+            got = cassette.get_recording(rid)
+            ok = got.id == rid and got.get_data('who') == 'thread-%d-%d' % (i, k) and got.get_metadata() == {'who': i, 'k': k} and \
+                cassette.get_recording_metadata(rid) == {'who': i, 'k': k}
+        except NoSuchRecording:
+            ok = False
+        if not ok:
+            ctx.violation('a recording whose save returned (while another thread saved through the same %s cassette) is not fetchable with its content' % kind,
+                          dict(w, thread=i, k=k))
+            return
+
+
 def run(ctx):
+    if ctx.shard == 0:
+        from vlib import concsaves
+        for kind, nt, per in (('memory', 2, 2), ('file', 2, 1), ('file', 3, 1), ('memory', 3, 1)):
+            concsaves.explore(ctx, kind, nt, per, judge_concurrent, ctx.quick)
     n = ctx.budget(300, 10000)
     base = ctx.seed * 1000003 + ctx.shard * 100000
     for i in range(n):
@@ -278,4 +298,7 @@ def run(ctx):
 
 
 def replay(ctx, w):
+    if w.get('concurrent_saves'):
+        print('scheduler witness: re-run the check (the exploration is deterministic)')
+        return
     run_case(ctx, w['case_seed'], w['kind'], w['prefix'])
